@@ -611,8 +611,8 @@ local elab "cases_arglist" : tactic => withMainContext do
   throwError "cases_arglist: no such hypothesis"
 
 /-- fix the length of the key, then the kind of every key atom (first to last), then the coordinate systems -/
-syntax "nat_keys" : tactic
-macro_rules
+local syntax "nat_keys" : tactic
+local macro_rules
   | `(tactic| nat_keys) => `(tactic|
       first
       | rfl
